@@ -85,7 +85,8 @@ def run(rep, tier, seed, proof_broken=False):
         rep.violation(dict(kind="correspondence-broken", correspondence=CORRESPONDENCE, what=dis[0], disagreeing=len(dis)), no_input=True)
 
 
-NOT_IN_MANIFEST = "not found in manifest".encode().hex()
+# the harness cuts long error messages: the beginning of "Object … is corrupt: Digest … not found in manifest" is what is left
+NOT_IN_MANIFEST = " is corrupt: Digest ".encode().hex()
 
 
 def known_c09k1(x, hist):
